@@ -24,7 +24,10 @@ META = {
              "sources (symbolic read size or default, every recv() chunk size symbolic), z3 proves on every explored path of the real "
              "ccsds_generator that yield i is exactly the slice (o_i, 6+L_i) of the stream, that nothing else is yielded, that bytes/file "
              "sources then stop and that a socket whose peer stays open blocks instead of yielding. Bounded: paths needing more than R "
-             "source reads per packet are cut and counted.",
+             "source reads per packet are cut and counted.  In addition an INDUCTIVE STEP (checks/induct.py): the body of the packet loop, lifted from the "
+             "function's AST, is run from an arbitrary loop-head state satisfying a representation invariant and z3 proves that one iteration yields "
+             "exactly the next packet and re-establishes the invariant (or stops / blocks when the source is exhausted), and that the real prologue "
+             "establishes the invariant - so the result extends to streams of ANY number of packets (still within R reads per packet).",
     "trusted": "z3 (linear integer arithmetic + arrays); the view model of bytes (slicing = offset arithmetic, += of contiguous views); the "
                "file/socket stubs' contracts; cross-validated on every path whose witness total is <= 96 MB against the unpatched generator",
     "bounds": {"quick": {"P": [1, 2, 3], "R (source reads per packet)": 4, "L": "1..65536", "prefix k": "0..2^31", "read size": "-1, default, or 1..2^31-1"},
@@ -254,6 +257,9 @@ MINI_XTCE = b"""<?xml version='1.0' encoding='UTF-8'?>
 
 
 def make(job):
+    if job["h"].startswith("induct"):
+        from checks import induct
+        return induct.make(job)
     packets, SymRaw = lia.install()
     h = {"framing": Framing, "arbitrary": Arbitrary, "twin": Twin, "reframe": Framing, "arbitrary-twin": ArbTwin}[job["h"]](job)
     h.packets, h.SymRaw = packets, SymRaw
@@ -273,6 +279,8 @@ def jobs(tier):
                 if not q or P <= 2 or (kind, rmode) in (("bytes", "default"), ("file", "sym")):
                     out.append({"name": f"P{P}-{kind}-{rmode}", "h": "framing", "params": {"kind": kind, "P": P, "R": R, "rmode": rmode},
                                 "must_reach": [f"{'block' if kind == 'socket' else 'stop'}/{P}"], "split": 4, "chunk": 20, "max_paths": 60000})
+    from checks import induct
+    out += induct.jobs(tier)
     out.append({"name": "P2-file-viadef", "h": "framing", "params": {"kind": "file", "P": 2, "R": R, "rmode": "sym", "via_def": True},
                 "must_reach": ["stop/2"], "split": 4, "chunk": 20})
     return out
